@@ -55,6 +55,8 @@ SCENARIOS = [
                                                 [["project"], ["docset", 2, "k", 5], ["docread", 1]]]),
     ("init-and-doc", "empty", [[["project"], ["init", 0], ["docset", 0, "k", 1]],
                                [["project"], ["init", 0], ["docread", 0]]]),
+    ("doc-assign-vs-reader", "populated", [[["project"], ["docset", 1, "k", 1], ["docassign", 1, "k", 9]],
+                                           [["project"], ["docread", 1], ["docread", 1]]]),
     ("doc-first-write-vs-read", "populated", [[["project"], ["docset", 1, "k", 1]], [["project"], ["docread", 1], ["docread", 1]]]),
     ("three-init-same", "noworkspace", [[["project"], ["init", 0]], [["project"], ["init", 0]], [["project"], ["init", 0], ["list"]]]),
     ("three-mixed", "populated", [[["project"], ["init", 0], ["docset", 0, "k", 1]], [["project"], ["docset", 1, "k", 7]],
@@ -107,6 +109,10 @@ def make_script(ops, root):
             elif kind == "docset":
                 p.open_job(copy.deepcopy(SP[op[1]])).document[op[2]] = op[3]
                 values.append(None)
+            elif kind == "docassign":
+                # whole-document assignment through the owner's property: one replacement, like any other write
+                p.open_job(copy.deepcopy(SP[op[1]])).document = {op[2]: op[3], "w": "whole"}
+                values.append(None)
             elif kind == "docread":
                 values.append(model.plain(p.open_job(copy.deepcopy(SP[op[1]])).document()))
             elif kind == "len":
@@ -141,7 +147,7 @@ def judge(ctx, name, initial, scripts, res):
             ctx.violation("actor-fails-under-interleaving", f"process {i} raised {r['error'][0] if r and r['error'] else 'died'}", wit)
             return True
     initial_ids = {model.model_id(sp) for sp in SP[1:]} if initial == "populated" else set()
-    requested = {model.model_id(SP[op[1]]) for ops in scripts for op in ops if op[0] in ("init", "docset", "docread")}
+    requested = {model.model_id(SP[op[1]]) for ops in scripts for op in ops if op[0] in ("init", "docset", "docassign", "docread")}
     final_expected = initial_ids | requested
     # documents: per job the sequence of versions written by its single writer
     versions = {}  # jid -> list of docs (version 0 = {})
@@ -153,6 +159,9 @@ def judge(ctx, name, initial, scripts, res):
                 d = dict(v[-1])
                 d[op[2]] = op[3]
                 v.append(d)
+            elif op[0] == "docassign":
+                jid = model.model_id(SP[op[1]])
+                versions.setdefault(jid, [{}]).append({op[2]: op[3], "w": "whole"})
     # values read
     ctx.monitor("reads_are_written_values")
     for ai, (ops, r) in enumerate(zip(scripts, res["results"])):
